@@ -142,6 +142,9 @@ func otherKey(r *hv.Rng, key []byte) []byte {
 func tamperTicket(r *hv.Rng, t []byte, idx int, tier string) ([]byte, string) {
 	n := len(t)
 	c := append([]byte(nil), t...)
+	if n == 0 {
+		return r.Bytes(r.Range(1, 60)), "random"
+	}
 	switch r.Intn(6) {
 	case 0, 1, 2:
 		var pos int
